@@ -331,6 +331,23 @@ func (e *Exec) mapAccess(m *Map, write bool, where string) {
 	e.raceCheck(h, write, "a map", where)
 }
 
+// memAccess monitors loads and stores of heap cells while more than one goroutine exists;
+// an access to a package-level struct variable as a whole covers its interior cells.
+func (e *Exec) memAccess(p *Value, write bool, where string) {
+	if e.ts == nil || len(e.ts.threads) < 2 {
+		return
+	}
+	what := "a heap cell"
+	if n, ok := e.globalCells[p]; ok {
+		what = "package-level variable " + n
+		e.yield() // accesses to package-level variables are scheduling points
+	}
+	e.cellAccess(p, write, what, where)
+	for _, c := range e.globalInner[p] {
+		e.cellAccess(c, write, what, where)
+	}
+}
+
 // globalAccess monitors package-level variables (called for loads/stores through *ssa.Global).
 func (e *Exec) cellAccess(p *Value, write bool, what, where string) {
 	if e.ts == nil || p == nil {
